@@ -24,6 +24,7 @@ def run(chk):
     TR.sweep_typestate(chk, src)
     TR.pack_unpack(chk, src)
     TR.time_decoding(chk, src)
+    TR.state_networks(chk, src, which=("apply",))   # the propagation-and-compression scheme builds its stages with TTNO.apply / contract
     chk.rule("krylov-hermitian", "operand of expm_krylov is a real multiple of a Hermitian operator for every time mode", 3)
     krylov_rule(chk, src, "krylov-hermitian", [TEVO])
     TR.decomposition_axes(chk, src, topologies=("generic",))
